@@ -83,7 +83,7 @@ class C04(core.Check):
         def qty():
             if lattice:
                 return r.choice([0.25, 0.5, 1.0, 1.5, 2.0, 3.0])
-            return r.choice([0.1, 0.3, 0.7, 1.1, 0.123, 2.345, 0.05])
+            return r.choice([0.1, 0.3, 0.7, 1.1, 0.123, 2.345, 0.05, 0.12345678, 0.00321987])     # also 8-decimal sizes
         for _ in range(seqlen):
             active = [k for k, o in enumerate(w.s.orders) if o.status == 'ACTIVE']
             final = [k for k, o in enumerate(w.s.orders) if o.status != 'ACTIVE']
@@ -119,7 +119,16 @@ class C04(core.Check):
                 q = qty()
                 if side == 'sell' and ref.base > 0 and r.random() < 0.6:
                     # "sell everything" uses the balance the account reports (what a strategy would read)
-                    q = float(w.e.assets['BTC']) if r.random() < 0.3 else min(q, float(w.e.assets['BTC']))
+                    u_ = r.random()
+                    if u_ < 0.3:
+                        q = float(w.e.assets['BTC'])
+                    elif u_ < 0.5 and not lattice:
+                        # "sell everything" rounded DOWN to the exchange's 8 decimals: leaves dust below 1e-8, which is
+                        # still a position (and still base held)
+                        import math
+                        q = math.floor(float(w.e.assets['BTC']) * 1e8) / 1e8
+                    else:
+                        q = min(q, float(w.e.assets['BTC']))
                 if r.random() < 0.08:
                     q = q * 50      # deliberately unaffordable
                 if q <= 0:
@@ -249,10 +258,48 @@ class C04(core.Check):
                                 'expected': 'accepted: nothing is resting any more and the base balance equals the quantity',
                                 'params': {'at': w.lines[-1], 'split': [a, b], 'kind': typ}})
 
+    def dust_cycles(self, res):
+        """buy an 8-decimal size with a fee, sell everything rounded DOWN to 8 decimals (dust below 1e-8 stays: it is still
+        base held and still a position), several rounds, then buy again and sell the whole base: position size = base
+        balance after every fill, never negative"""
+        import math
+        for fee in (0.00075, 0.001):
+            for q8 in (0.12345678, 0.00321987, 1.23456789):
+                w = acctcorr.RealWorld('spot', 10_000.0, fee, 1, 1)
+                w.price(0, 100.0)
+                bad = None
+
+                def check(tag):
+                    base = float(w.e.assets['BTC'])
+                    pos = float(w.s.position('BTC-USDT').qty)
+                    if abs(pos - base) > 1e-12 or pos < 0 or base < 0:
+                        return ('position-not-base', tag, pos, base)
+                    return None
+                for rnd in range(3):
+                    for side, qf in (('buy', lambda: q8), ('sell', lambda: math.floor(float(w.e.assets['BTC']) * 1e8) / 1e8)):
+                        q = qf()
+                        if q <= 0 or not w.submit(0, side, 'MARKET', q, 100.0, side == 'sell'):
+                            break
+                        w.execute(len(w.s.orders) - 1)
+                        bad = bad or check(w.lines[-1])
+                if not bad and w.submit(0, 'buy', 'MARKET', q8, 100.0, False):
+                    w.execute(len(w.s.orders) - 1)
+                    bad = check(w.lines[-1])
+                    qall = float(w.e.assets['BTC'])
+                    if not bad and qall > 0 and w.submit(0, 'sell', 'MARKET', qall, 100.0, True):
+                        w.execute(len(w.s.orders) - 1)
+                        bad = check(w.lines[-1])
+                res.seen(('dust', fee, q8), True)
+                res.count('sequences:dust-cycles')
+                if bad:
+                    res.fail(**{'class': 'spot/' + bad[0], 'input': {'ops': w.lines}, 'observed': bad[2], 'expected': bad[3],
+                                'params': {'at': bad[1], 'family': 'dust-cycles'}})
+
     def oracle(self, res, boost):
         jesse_env.setup()
         self.witness_sequences(res)
         self.replace_exits(res)
+        self.dust_cycles(res)
         for t in range(self.budget(800, 8000, boost)):
             lattice = t % 2 == 0
             w, verdict, nf, nc = self.run_sequence(res, self.rng.randint(3, 40 if not self.thorough else 80), lattice, oracle=True)
